@@ -102,6 +102,9 @@ def gen(rng, tier, k):
                 # midpoints between neighbouring fractions (ties)
                 d1, d2 = rng.choice(divs), rng.choice(divs)
                 xs.append(q + (rng.randint(0, d1) / d1 + rng.randint(0, d2) / d2) / 2)
+                # ... and a hair to either side of a midpoint: the nearer neighbour is the nearest, however close the call
+                xs.append(xs[-1] + rng.choice([-1, 1]) * rng.choice([2e-10, 1e-10, 4e-10, 3e-11]))
+                xs.append(q + 1 / (2 * max(divs)) - rng.choice([2e-10, 4e-10]))
         xs = [abs(x) for x in xs]
         return dict(cls=cls, divisions=divs, xs=xs)
     initial, changes = gen_timeline(rng, cls)
